@@ -368,6 +368,12 @@ def gen_case(rng, tier='quick', threads=False):
         # from the text; the child grows it in place; the same text is pyped again (re-runs of main,
         # the other parent, a second foreach iteration)
         case['file_loader'] = None
+        if rng.random() < 0.5:
+            # the files on disk, main run through a loader that wraps the file loader, then through
+            # the file loader, then the wrapper again: the pype child is found by the CASCADING loader
+            case['file_loader'] = {'layout': rng.choice(['name', 'dir'])}
+            case['two_loaders'] = True
+            case['shortcut'] = False
         g = Gen(rng, True)
         g.known, g.types = ['argList'], {'argList': 'l'}
         g.no_foreach = rng.random() < 0.7
